@@ -145,10 +145,10 @@ def c07(r):
             cur[path[-1]] = 1 - cur[path[-1]]
             return True
         return f
-    r.negctl("Trace_Civil", ch_c[0], {
+    r.negctl("Trace_Civil", ch_c[:3], {
         "C07Civil": [(lambda e: 1 <= e["m"] <= 12 and flip(["o", 30])(e), "C07.civil."), (lambda e: flip(["o", 0])(e), "C07.civil.accepted")],
         "C07Time": [(flip(["t", 0, 3]), "C07.civil.time-outcome")]})
-    r.negctl("Trace_Civil", ch_l[0], {"C07Lunar": [
+    r.negctl("Trace_Civil", ch_l[:8], {"C07Lunar": [
         (flip(["lunar", 13, 1]), "C07.lunar.rejected"), (flip(["tao", 0, 0]), "C07.tao.accepted"),
         (flip(["foto", 14, 31]), "C07.foto."), (bump(["got", 0, 10]), "C07.lunar.civil-day")]})
     r.negctl("Trace_Civil", ch_ch[0], {"C07Step": [
@@ -248,7 +248,7 @@ def c19(r):
         for k in ("ls", "l"):
             e["rows"][30][k] = e["rows"][29][k]
         return True
-    r.negctl("Trace_Civil", ch[0], {"C19Year": [
+    r.negctl("Trace_Civil", ch[:4], {"C19Year": [
         (bump(["rows", 3, "ymd", 9]), "C19.civil.ymd"), (bump(["rows", 4, "hms", 18]), "C19.civil.ymdhms"),
         (setv(["rows", 5, "ls", 0], "零"), "C19.lunar.render"), (bump(["rows", 6, "t", 2]), "C19.tao.render"),
         (bump(["rows", 7, "f", 0]), "C19.foto.render"), (dup_row, "C19.lunar.distinct")]}, per_kind=1)
@@ -297,7 +297,7 @@ def c20(r):
                 row["o"] = row["o"][:-1]
                 return True
         return False
-    r.negctl("Trace_Civil", ch[0], {"C20Year": [(setz, "C20.zodiac"), (addf, "C20.festivals"), (dropf, "C20.festivals"), (dropo, "C20.otherFestivals")]}, per_kind=2)
+    r.negctl("Trace_Civil", ch[1:5], {"C20Year": [(setz, "C20.zodiac"), (addf, "C20.festivals"), (dropf, "C20.festivals"), (dropo, "C20.otherFestivals")]}, per_kind=2)
 
 
 # ------------------------------------------------------------ lunar family
@@ -382,7 +382,7 @@ def c06(r):
         if not ok(e): return False
         e["tn"][2][2] = 59 - e["tn"][2][2]
         return True
-    r.negctl("Trace_Lunar", ch[0], {"C06Year": [
+    r.negctl("Trace_Lunar", ch[:3], {"C06Year": [
         (swap_len, "C06.months.length29or30"), (shift, "C06.months.contiguous"), (leap, "C06.year.leapMonth"),
         (navres, "C06.next.successor"), (navback, "C06.next.back"), (eve, "C06.eve.next-is-new-year"), (tn, "C06.neighbours.agree"),
         (lambda e: ok(e) and bump(["days"])(e), "C06.year.dayCount")]}, per_kind=1)
@@ -440,7 +440,7 @@ def c01(r):
             return False
         e["rows"][50]["a"] = list(e["rows"][49]["a"])
         return True
-    r.negctl("Trace_Lunar", ch[0], {"C01Year": [
+    r.negctl("Trace_Lunar", ch[:4], {"C01Year": [
         (rowmut("a", 2), "C01.toLunar"), (rowmut("bs", 2), "C01.fromLunar.civil-day"), (rowmut("bl", 1), "C01.fromLunar.back"),
         (rowmut("nx", 8), "C01.next.civil-day"), (rowmut("nx", 4), "C01.next.same-as-civil-route"), (dig, "C01.path-independence"),
         (dup, "C01.injective")]}, per_kind=1)
@@ -506,7 +506,7 @@ def c03(r):
                 q["name"][0] = ""
                 return True
         return False
-    r.negctl("Trace_Lunar", ch[0], {"C03Year": [
+    r.negctl("Trace_Lunar", ch[:3], {"C03Year": [
         (qmut("pj"), "C03.lookup.prevJie"), (qmut("nqw"), "C03.lookup.nextQi.wholeDay"), (nxt_same, "C03.lookup.nextJieQi"),
         (lonmut, "C03.longitude.own-ephemeris"), (indmut, "C03.longitude.independent"), (order, "C03.table.canonical-order"),
         (share, "C03.table.shared-with-next-year"), (name, "C03.ofDay.name"),
@@ -560,7 +560,7 @@ def c05(r):
                 q["ec1"][2] = q["ec2"][2]
                 return True
         return False
-    r.negctl("Trace_Lunar", ch[0], {"C05Year": [
+    r.negctl("Trace_Lunar", ch[:4], {"C05Year": [
         (idxmut(0), "C05.year.newYear"), (idxmut(2), "C05.year.lichunDay"), (idxmut(4), "C05.year.lichunInstant"),
         (idxmut(6), "C05.month.jieDay"), (idxmut(8), "C05.month.jieInstant"), (idxmut(10), "C05.day"),
         (idxmut(12), "C05.day.earlyRat"), (idxmut(16), "C05.hour"), (strmut(4), "C05.names"), (ecmut, "C05.eightChar.sect1")]}, per_kind=1)
